@@ -145,6 +145,12 @@ def simplify(t):
         return t
     f = t[1]
     a = t[2:]
+    if f == 'proj' and len(a) == 2 and isinstance(a[0], tuple) and a[0] and a[0][0] == 'agg' and isinstance(a[1], str):
+        # projection of a freshly built aggregate: the component itself
+        want = a[1].split('.')[-1]
+        for k, v in a[0][3]:
+            if k == want:
+                return v
     if f in ('round_down', 'round_up') and len(a) == 2 and a[1] == C(1):
         return a[0]
     if f == 'mod' and len(a) == 2 and a[1] == C(1):
